@@ -47,18 +47,18 @@ PINNED = {
 
 
 OPEN_TITLES = {k: v[2] for k, v in PINNED.items()}
-FIXED_COMMITS = {"K-catch-pop": "790993c", "K-stale-error-ip-a": "26bae81", "K-stale-error-ip-b": "26bae81", "K-handler-offset-65536": "df4b5d7"}
+FIXED_COMMITS = {"K-catch-pop": "790993c", "K-stale-error-ip-a": "26bae81", "K-stale-error-ip-b": "26bae81", "K-handler-offset-65536": "70f8b24"}
 
 # ---- other properties: (property, id, status, commit, title, scenario dict)
 from sim.props import c09, c15, c12, c01, c16
 OTHER = [
- ("C01", "K-bound-native-reclaimed-during-its-call", "fixed", "96e4f8c",
+ ("C01", "K-bound-native-reclaimed-during-its-call", "fixed", "c7ee09c",
   "call_value() kept the bound method borrowed while the callee ran: a bound built-in method reachable only through the callee's stack slot (returned by a function and called at once) was reclaimed by a collection during the call and the borrow guard's drop wrote into freed memory (dev builds: panic 'RefCell already mutably borrowed')",
   {"ir": {"gadgets": [["op", 37, 1000, "global"]], "reset": False}, "gc_tape": "ff" * 64, "gc_rate": 2}),
- ("C01", "K-bound-method-reclaimed-during-arity-error", "fixed", "96e4f8c",
+ ("C01", "K-bound-method-reclaimed-during-arity-error", "fixed", "c7ee09c",
   "same for a bound method called with the wrong number of arguments: raising the TypeError allocates while the bound method is still borrowed",
   {"ir": {"gadgets": [["failop", 14, 1000]], "reset": False}, "gc_tape": "ff" * 64, "gc_rate": 2}),
- ("C01", "K-instance-reclaimed-during-field-call", "fixed", "96e4f8c",
+ ("C01", "K-instance-reclaimed-during-field-call", "fixed", "c7ee09c",
   "invoke() kept a temporary instance borrowed while the callable stored in one of its fields ran",
   {"ir": {"gadgets": [["op", 40, 1000, "global"]], "reset": False}, "gc_tape": "ff" * 64, "gc_rate": 2}),
  ("C01", "K-unwind-leaves-captured-variables-open", "fixed", "0143da8",
